@@ -1,0 +1,55 @@
+// This Source Code Form is subject to the terms of the Mozilla Public
+// License, v. 2.0. If a copy of the MPL was not distributed with this
+// file, You can obtain one at http://mozilla.org/MPL/2.0/.
+
+//go:build verif
+
+package owned
+
+// Contracts for the deductive verifier in /verif (govc). Comment-only file: it
+// adds no code. Lines starting with //@ are parsed by govc; see /verif/DESIGN.md.
+
+// Every operation of the owned state counts as one delegated call (ghost counter), so that callers
+// can state "a rejected operation performs no delegated call".
+//@ ghostvar delegated int
+//@
+//@ func (*State).Get
+//@   trusted
+//@   modifies delegated
+//@   ensures delegated == old(delegated) + 1
+//@ func (*State).List
+//@   trusted
+//@   modifies delegated
+//@   ensures delegated == old(delegated) + 1
+//@ func (*State).ContextWithTeardown
+//@   trusted
+//@   modifies delegated
+//@   ensures delegated == old(delegated) + 1
+//@ func (*State).Create
+//@   trusted
+//@   modifies delegated
+//@   ensures delegated == old(delegated) + 1
+//@ func (*State).Update
+//@   trusted
+//@   modifies delegated
+//@   ensures delegated == old(delegated) + 1
+//@ func (*State).ModifyWithResult
+//@   trusted
+//@   modifies delegated
+//@   ensures delegated == old(delegated) + 1
+//@ func (*State).Teardown
+//@   trusted
+//@   modifies delegated
+//@   ensures delegated == old(delegated) + 1
+//@ func (*State).Destroy
+//@   trusted
+//@   modifies delegated
+//@   ensures delegated == old(delegated) + 1
+//@ func (*State).AddFinalizer
+//@   trusted
+//@   modifies delegated
+//@   ensures delegated == old(delegated) + 1
+//@ func (*State).RemoveFinalizer
+//@   trusted
+//@   modifies delegated
+//@   ensures delegated == old(delegated) + 1
